@@ -307,6 +307,15 @@ Section Facts.
     pose proof (register_status amount s w) as H3. rewrite E in H3. cbn [snd] in H3.
     repeat split; auto; apply H3.
   Qed.
+  (* through the real client: success needs a receipt with status 1 that the caller itself got *)
+  Lemma register_via_client_status amount s w late :
+    snd (register kec cfg reg amount s (evm_wait late w)) = Ok tt <->
+    late = false /\ exists h, s = SHash h /\ w = WReceipt 1.
+  Proof.
+    rewrite register_status. unfold evm_wait. split.
+    - intros (h & -> & Hw). destruct late; [discriminate|]. split; [reflexivity|]. exists h. auto.
+    - intros (-> & h & -> & ->). exists h. auto.
+  Qed.
 End Facts.
 
 (* --- non-vacuity ------------------------------------------------------------------------------- *)
@@ -450,7 +459,7 @@ Proof.
   unfold agrees1, violation1.
   destruct (cfg_spec (kind c)) as (Hreg & Hmin & Hstake).
   set (kec := kec_of (abi c)) in *. set (cfg := cfg_of (kind c)) in *.
-  destruct (op c) as [addr a1 a2|a|addr a|amt s w|owner valid parsed s w a|args|tys d|steps]; try reflexivity.
+  destruct (op c) as [addr a1 a2|a|addr a|amt s w|owner valid parsed s w a|args|tys d|steps|amt s w late]; try reflexivity.
   - (* the check *)
     destruct (check kec cfg (reg c) addr a1 a2) as [t b] eqn:E.
     rewrite !andb_true_iff. intros [[[Ht Hb] _] _].
@@ -529,11 +538,26 @@ Proof.
       rewrite Hs. cbn [negb].
       destruct (res c) as [| | |code am| | |]; try discriminate.
       destruct code as [|p]; [discriminate|reflexivity].
+  - (* stake / prepay through the real client *)
+    destruct (register kec cfg (reg c) amt s (evm_wait late w)) as [t r] eqn:E.
+    rewrite andb_true_iff. intros [Ht Hr]. apply trace_eqb_eq in Ht.
+    assert (Hs : sends_ok c (Some amt) = true).
+    { unfold sends_ok. rewrite <- Ht, (want_send_eq c amt Hreg). fold kec cfg.
+      unfold register in E. destruct s; injection E as <- <-; cbn [sends flat_map app]; apply txreq_eqb_refl. }
+    rewrite Hs. cbn [negb].
+    destruct (res c) as [|?|o|? ?| | |]; try discriminate.
+    destruct o as [|p]; [|reflexivity].
+    assert (Hok : snd (register kec cfg (reg c) amt s (evm_wait late w)) = Ok tt).
+    { rewrite E. cbn [snd]. destruct r as [[]|?|]; cbn in Hr; try discriminate; reflexivity. }
+    apply register_ok_trace in Hok. destruct Hok as (h & -> & Hw & Hf). rewrite E in Hf. cbn [fst] in Hf.
+    destruct late; cbn [evm_wait] in Hw; [discriminate|]. subst w.
+    unfold mined_ok. rewrite <- Ht, Hf. cbn [sends flat_map app waited_after_send andb orb negb N.eqb Pos.eqb].
+    rewrite bytes_eqb_refl. reflexivity.
 Qed.
 
 Lemma checker_accepts_model c : agrees c = true -> violation c = None.
 Proof.
-  unfold agrees, violation. destruct (op c) as [| | | | | | |steps]; try apply checker_accepts_model1.
+  unfold agrees, violation. destruct (op c) as [| | | | | | |steps|]; try apply checker_accepts_model1.
   induction steps as [|st r IH]; [reflexivity|]. cbn [forallb first_violation].
   rewrite andb_true_iff. intros [H1 H2]. rewrite (checker_accepts_model1 _ H1). apply IH. exact H2.
 Qed.
